@@ -182,6 +182,9 @@ def run(ctx):
             ctx.case(('ply', k, float(tris.sum())), True)
             if back.shape != tris.shape or not np.array_equal(back, tris):
                 ctx.violation('PLY triangle set (%d triangles) does not read back identically' % k, {'triangles': k}, {'fn': 'write_PLY', 'what': 'roundtrip'})
+        ply_points_cases(ctx, tmp)
+        image_range_cases(ctx, tmp)
+        tensor_layout_cases(ctx, tmp)
         # ---------------- tensors
         for _ in range(ctx.n(3, 20)):
             t = torch.randn(rng.randint(1, 5), rng.randint(1, 5), dtype=rng.choice([torch.float32, torch.float64, torch.complex64]))
@@ -211,11 +214,227 @@ def run(ctx):
         shutil.rmtree(tmp, ignore_errors=True)
 
 
+def ply_points_check(pts, fn):
+    """write_PLY_from_points -> read_PLY_point_cloud (vertices) and read_PLY (the triangles of the grid); returns list of (what, text)"""
+    from odak.tools.asset import write_PLY_from_points, read_PLY_point_cloud, read_PLY
+    M, N = pts.shape[:2]
+    want = pts.reshape(-1, 3).astype(np.float32).astype(np.float64)
+    write_PLY_from_points(pts.copy(), fn)
+    fails = []
+    pc = np.asarray(read_PLY_point_cloud(fn))
+    if pc.shape != want.shape or not np.array_equal(pc, want):
+        fails.append(('points_roundtrip', 'a %dx%d grid of points reads back as a point cloud of shape %s%s' % (
+            M, N, pc.shape, '' if pc.shape != want.shape else ' with values that differ by up to %g' % float(np.max(np.abs(pc - want))))))
+    if M >= 2 and N >= 2:
+        try:
+            tris = np.asarray(read_PLY(fn), dtype=np.float64)
+        except Exception as e:
+            return fails + [('faces', 'the mesh written for a %dx%d grid of points cannot be read back as triangles: read_PLY raised %r' % (M, N, e))]
+        grid = want.reshape(M, N, 3)
+        cells = {}
+        ok = tris.shape == (2 * (M - 1) * (N - 1), 3, 3)
+        if ok:
+            index = {tuple(grid[i, j]): (i, j) for i in range(M) for j in range(N)}
+            for t in tris:
+                ij = [index.get(tuple(v)) for v in t]
+                if None in ij or len(set(ij)) != 3:
+                    ok = False
+                    break
+                i0, j0 = min(a for a, _ in ij), min(b for _, b in ij)
+                if any(a - i0 > 1 or b - j0 > 1 for a, b in ij):
+                    ok = False
+                    break
+                cells.setdefault((i0, j0), set()).update(ij)
+            ok = ok and len(cells) == (M - 1) * (N - 1) and all(len(v) == 4 for v in cells.values())
+        if not ok:
+            fails.append(('faces', 'the triangles read back from the mesh of a %dx%d grid of points (shape %s) are not two triangles per grid cell over '
+                          'neighbouring points' % (M, N, tris.shape)))
+    return fails
+
+
+def ply_points_cases(ctx, tmp):
+    rng = ctx.rng
+    shapes = [(1, 1), (1, 4), (4, 1), (2, 2), (3, 3), (2, 3), (3, 2), (4, 7), (5, 5)] + [(rng.randint(1, 6), rng.randint(1, 6)) for _ in range(ctx.n(3, 20))]
+    for k, (M, N) in enumerate(shapes):
+        pts = np.array([[[rng.uniform(-50, 50) for _ in range(3)] for _ in range(N)] for _ in range(M)])
+        if k % 3 == 0:
+            pts = pts.astype(np.float32).astype(np.float64)
+        rec = {'fn': 'write_PLY_from_points', 'points': pts.tolist()}
+        ctx.case(('ply_points', M, N, float(pts.sum())), True, rec if k == 5 else None)
+        ctx.count('ply_points/%s' % ('square grid' if M == N else 'single row or column' if min(M, N) == 1 else 'non-square grid'))
+        try:
+            fails = ply_points_check(pts, os.path.join(tmp, 'pts.ply'))
+        except Exception as e:
+            fails = [('raises', 'raised %r for a %dx%d grid of points' % (e, M, N))]
+        for what, text in fails:
+            ctx.violation('write_PLY_from_points: ' + text, rec, {'fn': 'write_PLY_from_points', 'what': what, 'square': M == N})
+
+
+def image_levels(api, fn, values, cmin, cmax, depth):
+    """save a one-row image with the given saver and return the stored integer levels"""
+    import odak.tools as NT
+    import odak.learn.tools as LT
+    arr = np.asarray(values, dtype=np.float64).reshape(1, -1)
+    if api == 'numpy':
+        NT.save_image(fn, arr, cmin=cmin, cmax=cmax, color_depth=depth)
+    else:
+        LT.save_image(fn, torch.tensor(arr, dtype=torch.float32), cmin=cmin, cmax=cmax, color_depth=depth)
+    return NT.load_image(fn).reshape(-1)
+
+
+def image_range_check(api, fn, cmin, cmax, depth, mids):
+    """documented meaning of cmin / cmax: cmin is stored as level 0, cmax as the top level, values outside are clipped"""
+    top = 2 ** depth - 1
+    span = cmax - cmin
+    values = [cmin, cmax, cmin - 0.37 * span, cmax + 0.41 * span] + list(mids)
+    lv = image_levels(api, fn, values, cmin, cmax, depth)
+    fails = []
+    if lv[0] != 0:
+        fails.append(('cmin_level', 'the value cmin = %g is stored as level %d, not 0 (cmax = %g, %d bit)' % (cmin, lv[0], cmax, depth)))
+    if lv[1] != top:
+        fails.append(('cmax_level', 'the value cmax = %g is stored as level %d, not %d (cmin = %g)' % (cmax, lv[1], top, cmin)))
+    if lv[2] != lv[0] or lv[3] != lv[1]:
+        fails.append(('clip', 'values below cmin / above cmax are stored as %d / %d, cmin / cmax themselves as %d / %d' % (lv[2], lv[3], lv[0], lv[1])))
+    order = np.argsort(values)
+    if np.any(np.diff(lv[order]) < 0):
+        fails.append(('monotone', 'stored levels %s are not monotone in the values %s' % (lv[order].tolist(), np.asarray(values)[order].tolist())))
+    for v, l in zip(values[4:], lv[4:]):
+        want = (v - cmin) / span * top
+        if abs(l - want) > 1.0 + 1e-3 * top * 1e-3:
+            fails.append(('level', 'the value %g in [cmin, cmax] = [%g, %g] is stored as level %d, expected %g +- 1' % (v, cmin, cmax, l, want)))
+            break
+    return fails
+
+
+def image_range_cases(ctx, tmp):
+    import odak.tools as NT
+    import odak.learn.tools as LT
+    rng = ctx.rng
+    fn = os.path.join(tmp, 'rng.png')
+    RANGES = [(0.0, 1.0), (0.0, 255.0), (0.0, 65535.0), (0.0, None), (50.0, 250.0), (0.25, 0.75), (-1.0, 1.0), (None, None), (100.0, 101.0)]
+    k = 0
+    for depth in (8, 16):
+        for (cmin, cmax) in RANGES:
+            for api in ('numpy', 'torch'):
+                k += 1
+                cm = rng.uniform(0.5, 300) if cmax is None else cmax
+                c0 = rng.uniform(-0.5, 0.9) * cm if cmin is None else cmin
+                mids = [c0 + (cm - c0) * rng.uniform(0.02, 0.98) for _ in range(4)] + [0.5 * (c0 + cm)]
+                rec = {'fn': 'save_image', 'api': api, 'cmin': c0, 'cmax': cm, 'depth': depth, 'values': mids}
+                ctx.case(('range', api, depth, c0, cm), True, rec if k % 7 == 0 else None)
+                ctx.count('image/range/%s/%s' % (api, 'cmin = 0' if c0 == 0 else 'cmin > 0' if c0 > 0 else 'cmin < 0'))
+                try:
+                    fails = image_range_check(api, fn, c0, cm, depth, mids)
+                except Exception as e:
+                    fails = [('raises', 'raised %r' % e)]
+                for what, text in fails:
+                    ctx.violation('%s save_image(cmin = %g, cmax = %g, %d bit): %s' % (api, c0, cm, depth, text), rec,
+                                  {'fn': 'save_image' if api == 'numpy' else 'learn.save_image', 'what': what, 'cmin_nonzero': c0 != 0, 'depth': depth})
+    # ---------------- load_image(normalizeby, torch_style), and saving what a normalised load returned
+    for depth in (8, 16):
+        n = 2 ** depth
+        side = int(np.sqrt(n))
+        levels = np.arange(n, dtype=np.float64).reshape(side, side)
+        for ch in (1, 3):
+            img = levels if ch == 1 else np.stack([levels, levels[::-1], (levels * 7) % n], axis=2)
+            f1, f2 = os.path.join(tmp, 'n1.png'), os.path.join(tmp, 'n2.png')
+            NT.save_image(f1, img, cmin=0, cmax=n - 1, color_depth=depth)
+            raw = NT.load_image(f1)
+            for nb in (float(n - 1), 255.0, 2.5, 1.0, 0.0):
+                for ts in (False, True):
+                    rec = {'fn': 'load_image', 'depth': depth, 'channels': ch, 'normalizeby': nb, 'torch_style': ts}
+                    ctx.case(('normalizeby', depth, ch, nb, ts), True)
+                    ctx.count('image/normalizeby/%s' % ('off' if nb == 0 else 'on'))
+                    got = NT.load_image(f1, normalizeby=nb, torch_style=ts)
+                    want = raw if nb == 0 else raw * 1. / nb
+                    if ts and ch == 3:
+                        want = np.moveaxis(want, -1, 0)
+                    if got.shape != want.shape or not np.array_equal(got, want):
+                        ctx.violation('load_image(normalizeby = %g, torch_style = %s) of a %d-bit %d-channel image is not the stored levels divided by %g in the '
+                                      'requested layout (shape %s, expected %s)' % (nb, ts, depth, ch, nb, got.shape, want.shape), rec,
+                                      {'fn': 'load_image', 'what': 'normalizeby', 'depth': depth})
+                    gt = LT.load_image(f1, normalizeby=nb, torch_style=ts)
+                    if tuple(gt.shape) != want.shape or not torch.equal(gt, torch.from_numpy(want).float()):
+                        ctx.violation('torch load_image(normalizeby = %g, torch_style = %s) differs from the NumPy loader' % (nb, ts), rec,
+                                      {'fn': 'learn.load_image', 'what': 'normalizeby', 'depth': depth})
+            # every level, loaded normalised to [0, 1] and saved again with cmax = 1, gives the same file
+            x = NT.load_image(f1, normalizeby=float(n - 1))
+            NT.save_image(f2, x, cmin=0, cmax=1., color_depth=depth)
+            back = NT.load_image(f2)
+            ctx.case(('normalised_resave', depth, ch), True)
+            if back.shape != raw.shape or not np.array_equal(back, raw):
+                bad = np.argwhere(back != raw)
+                ctx.violation('%d-bit %d-channel image loaded with normalizeby = %d and saved with cmax = 1 changes %d pixel levels (first: %s -> %s)'
+                              % (depth, ch, n - 1, len(bad), raw[tuple(bad[0])] if len(bad) else None, back[tuple(bad[0])] if len(bad) else None),
+                              {'fn': 'save_image', 'depth': depth, 'channels': ch}, {'fn': 'save_image', 'what': 'normalised_resave', 'depth': depth})
+    # values in [0, cmax] saved and loaded with the matching normalisation come back within one level
+    for _ in range(ctx.n(12, 100)):
+        depth = rng.choice([8, 16])
+        top = 2 ** depth - 1
+        cm = rng.choice([1.0, 255.0, rng.uniform(0.5, 300)])
+        h, w, ch = rng.randint(1, 9), rng.randint(1, 9), rng.choice([1, 3])
+        img = np.array([[[rng.uniform(0, cm) for _ in range(ch)] for _ in range(w)] for _ in range(h)])
+        if ch == 1:
+            img = img[:, :, 0]
+        NT.save_image(fn, img, cmin=0, cmax=cm, color_depth=depth)
+        back = NT.load_image(fn, normalizeby=top / cm)
+        ctx.case(('scaled_roundtrip', depth, cm, h, w, ch), True)
+        if back.shape != img.shape or float(np.max(np.abs(back - img))) > cm / top * (1 + 1e-3):
+            ctx.violation('an image with values in [0, %g] saved at %d bit and loaded with normalizeby = %g differs by %g (one level is %g)'
+                          % (cm, depth, top / cm, float(np.max(np.abs(back - img))) if back.shape == img.shape else float('nan'), cm / top),
+                          {'fn': 'save_image', 'depth': depth, 'cmax': cm, 'image': img.tolist()}, {'fn': 'save_image', 'what': 'scaled_roundtrip', 'depth': depth})
+
+
+def tensor_layout_cases(ctx, tmp):
+    """save_torch_tensor / torch_load for 0-d tensors and tensors that are views (transposed, strided, expanded, offset)"""
+    import odak.learn.tools as LT
+    rng = ctx.rng
+    fn = os.path.join(tmp, 'layout.pt')
+    for _ in range(ctx.n(3, 20)):
+        g = torch.Generator().manual_seed(rng.randrange(10 ** 6))
+        base = torch.rand(rng.randint(2, 6), rng.randint(2, 6), rng.randint(1, 4), generator=g)
+        cands = {
+            '0-d float32': torch.tensor(rng.uniform(-5, 5)), '0-d float64': torch.tensor(rng.uniform(-5, 5), dtype=torch.float64),
+            '0-d int64': torch.tensor(rng.randrange(-10 ** 9, 10 ** 9)), '0-d bool': torch.tensor(rng.random() < 0.5),
+            '0-d complex64': torch.tensor(complex(rng.uniform(-1, 1), rng.uniform(-1, 1)), dtype=torch.complex64),
+            '0-d from indexing': base[1, 1, 0],
+            'transposed': base.transpose(0, 1), 'permuted': base.permute(2, 0, 1), 'strided': base[::2, 1::2], 'offset row': base[1],
+            'expanded': base[:1, :1].expand(3, 4, base.shape[2]), 'flipped': base.flip(0), 'empty': base[:0],
+            'complex view': torch.view_as_complex(torch.rand(3, 4, 2, generator=g)).t(), 'int16 strided': (base * 1000).to(torch.int16)[:, ::2],
+        }
+        for name, t in cands.items():
+            rec = {'fn': 'save_torch_tensor', 'layout': name, 'shape': list(t.shape), 'stride': list(t.stride()), 'dtype': str(t.dtype)}
+            ctx.case(('tensor_layout', name, tuple(t.shape), str(t.dtype), float(t.double().abs().sum()) if not t.is_complex() else float(t.abs().sum())),
+                     t.numel() > 0)
+            ctx.count('tensor/%s' % ('0-d' if t.dim() == 0 else 'contiguous' if t.is_contiguous() else 'non-contiguous'))
+            keep = t.clone()
+            try:
+                LT.save_torch_tensor(fn, t)
+                back = LT.torch_load(fn)
+            except Exception as e:
+                ctx.violation('save_torch_tensor / torch_load raised %r for a %s tensor' % (e, name), rec, {'fn': 'save_torch_tensor', 'what': 'raises', 'layout': name})
+                continue
+            if not isinstance(back, torch.Tensor) or back.dtype != t.dtype or back.shape != t.shape or not torch.equal(back, keep) or not torch.equal(t, keep):
+                ctx.violation('%s tensor (shape %s, stride %s, %s) does not read back identically: %s' % (
+                    name, tuple(t.shape), t.stride(), t.dtype, 'shape %s dtype %s' % (tuple(back.shape), back.dtype) if isinstance(back, torch.Tensor) else type(back)),
+                    rec, {'fn': 'save_torch_tensor', 'what': 'roundtrip', 'layout': name})
+
+
 def replay(ctx, rep):
     import odak.tools as NT
     r = rep['replay']
     tmp = tempfile.mkdtemp(prefix='odakverif_c19_')
     try:
+        if r.get('fn') == 'write_PLY_from_points':
+            fails = ply_points_check(np.array(r['points']), os.path.join(tmp, 'p.ply'))
+            for f in fails:
+                print('fails:', f[1])
+            return not fails
+        if r.get('fn') == 'save_image' and 'cmin' in r:
+            fails = image_range_check(r['api'], os.path.join(tmp, 'r.png'), r['cmin'], r['cmax'], r['depth'], r['values'])
+            for f in fails:
+                print('fails:', f[1])
+            return not fails
         if 'lines' in r:
             fn = os.path.join(tmp, 't.txt')
             NT.write_to_text_file(r['lines'], fn)
